@@ -44,7 +44,9 @@ THEOREMS = ['C11_inverse_den', 'C11_inverse_complcell_rejects',
             'C11_deck_end_to_end',
             'C11_written_dichotomy', 'C11_rejected_iff_nested',
             'C11_get_ast2_eq_bounded', 'C11_get_ast2_eq_bounded6',
-            'C11_normalize2_normal_form', 'C11_get_ast2_layout_partial',
+            'C11_normalize2_normal_form', 'C11_peg_normal_form',
+            'C11_get_ast2_eq_written', 'C11_get_ast2_eq_accepted',
+            'C11_get_ast2_layout_partial',
             'C11_nested_refuted']
 TRUSTED = [
     'hand-written model coq/C11/Model.v: lexer + pushdown precedence parser '
